@@ -5,7 +5,7 @@ import os
 
 from tfv import core, ref
 from tfv.core import Violation, run_async
-from tfv.gen import gen_const_value, gen_schema, literal_to_json, wrap_type
+from tfv.gen import gen_const_value, gen_schema, gen_split, literal_to_json, wrap_type
 from tfv.impl import Harness, clean_registry
 from tfv.model import BUILTIN_SCALARS, canon, kind_of, named, print_document, ty, ty_str
 from tfv.ref import RefInputError, coerce_argument_values, coerce_variable_values
@@ -142,7 +142,9 @@ def build_engine(c):
     schema["types"]["Query"] = q
     schema["roots"] = {"query": "Query"}
     clean_registry()
-    h = Harness(schema, {"default_fields": []}, None)
+    # input objects and enums may be spelled as definition + `extend` block; resolvers work on their arguments in place
+    schema["plan"] = {"default_fields": [], "sdl_split": gen_split(c, schema, ("INPUT", "ENUM")), "scramble_args": True}
+    h = Harness(schema, schema["plan"], None)
     # echo resolvers
     h.serve = lambda rs, parent, obj, field, args, path: "ok"
     run_async(h.build())
@@ -222,9 +224,11 @@ def check(spec, h=None):
     schema = spec["schema"]
     if h is None:
         clean_registry()
-        h = Harness(schema, {"default_fields": []}, None)
+        h = Harness(schema, schema.get("plan") or {"default_fields": []}, None)
         h.serve = lambda rs, parent, obj, field, args, path: "ok"
         run_async(h.build())
+        for old in spec.get("history") or ():  # the requests this engine served before (replay of a shrunk failure)
+            run_async(h.engine.execute(print_document(old["doc"]).text, operation_name="Q", context=h.ctx_token, variables=core_unjson(copy.deepcopy(old["variables"]))))
     h.reset_logs()
     printed = print_document(spec["doc"])
     variables = copy.deepcopy(spec["variables"])
@@ -233,6 +237,7 @@ def check(spec, h=None):
         return await h.engine.execute(printed.text, operation_name="Q", context=h.ctx_token, variables=variables)
 
     resp = run_async(go())
+    h.scramble_live()
     e1 = expectation(spec, "reject")
     e2 = expectation(spec, "accept")
     ctx = "\nquery: %s\nvariables: %s\nresponse: %s" % (printed.text, json.dumps(core.jsonable(spec["variables"])), str(resp)[:1200])
@@ -290,9 +295,12 @@ def same_types(a, b):
 
 def case(c, stats):
     schema, types, h = build_engine(c)
+    history = []
     for _ in range(REQUESTS_PER_ENGINE):
         spec, labels = make_request(c, schema, types)
+        spec["history"] = list(history)
         trace, e = check(spec, h)
+        history.append({"doc": spec["doc"], "variables": spec["variables"]})
         labels = labels + sorted("trace:" + t for t in trace) + ["outcome:" + ("refused" if e["bad"] else "accepted")]
         nontrivial = bool(trace & {"list_wrap", "field_default", "variable_default", "depth2"})
         stats.case({"t": spec["types"], "d": spec["doc"], "v": spec["variables"], "s": schema["types"]}, nontrivial, labels,
